@@ -238,6 +238,14 @@ func cmdForeign(args []string, w *bufio.Writer) {
 				err = composed.RemoveAll(c.Name)
 			case "rename":
 				err = composed.Rename(c.Name, c.Name2)
+			case "chmod":
+				err = composed.Chmod(c.Name, os.FileMode(c.Perm))
+			case "chown":
+				err = composed.Chown(c.Name, c.UID, c.GID)
+			case "chtimes":
+				err = composed.Chtimes(c.Name, time.Unix(c.Atime, 0), time.Unix(c.Mtime, 0))
+			default:
+				err = fmt.Errorf("unknown op %q", c.Op)
 			}
 			o := classify(err)
 			if err != nil {
